@@ -34,19 +34,24 @@ static unsigned long g_N, g_P0, g_cur; static _Bool g_key_set; static unsigned l
 static unsigned long g_w; static _Bool g_eq_w;                 /* arbitrary witness pair and whether its key equals the requested key */
 static _Bool g_matched; static unsigned long g_match_pair;      /* last pair whose key compared equal */
 static _Bool g_value_read; static unsigned long g_value_pair;   /* pair whose value was read / whose header was consumed */
-static unsigned long g_keys_read; static unsigned g_seeks;
+static unsigned long g_keys_read; static unsigned g_seeks; static _Bool g_after_exc, g_skip_failed;
 static void rd_consume(void) { __CPROVER_assert(g_cur < 2 * g_N, "C03: the scope never reads or skips beyond the last key/value pair of its map"); g_cur++; }
 static _Bool rd_raise(void) { if (nondet_bool()) { __verif_exc = EXC_ParsingException; return 1; } return 0; }
-void IMsgPackReader_SkipValue(struct IMsgPackReader* r) { if (rd_raise()) return; rd_consume(); }
+/* a read may fail before it consumes anything (mismatched type, truncated head) or after it consumed the value (overflow is detected after decoding) */
+static _Bool rd_raise_after(void) { if (nondet_bool()) { __verif_exc = EXC_SerializationException; return 1; } return 0; }
+/* g_skip_failed: a failed skip means damaged input at the cursor: the destructor's own skip then fails too (known finding KF-C20-objscope-dtor-throws) */
+void IMsgPackReader_SkipValue(struct IMsgPackReader* r) { if (rd_raise()) { g_skip_failed = 1; return; } rd_consume(); }
 void IMsgPackReader_SetPosition__u64(struct IMsgPackReader* r, unsigned long p) { __CPROVER_assert(p == g_P0, "C03: the only position the scope seeks to is the start of its map"); g_seeks++; g_cur = 0; }
 int IMsgPackReader_ReadValueType(struct IMsgPackReader* r) { __CPROVER_assert(g_cur % 2 == 0 && g_cur < 2 * g_N, "C03: a key is examined only at a key position inside the map"); return nondet_int(); }
-#define KEY_READ(NAME, T) _Bool NAME(struct IMsgPackReader* r, T* v) { if (rd_raise()) return 0; __CPROVER_assert(g_cur % 2 == 0, "C03: keys are read at key positions"); rd_consume(); g_keys_read++; return 1; }
+#define KEY_READ(NAME, T) _Bool NAME(struct IMsgPackReader* r, T* v) { if (rd_raise()) return 0; __CPROVER_assert(g_cur % 2 == 0, "C03: keys are read at key positions"); rd_consume(); if (rd_raise_after()) return 0; g_keys_read++; return 1; }
 KEY_READ(IMsgPackReader_ReadValue__rvsv_c8, vsv_c8) KEY_READ(IMsgPackReader_ReadValue__ru64, unsigned long) KEY_READ(IMsgPackReader_ReadValue__ri64, long) KEY_READ(IMsgPackReader_ReadValue__rf64, double) KEY_READ(IMsgPackReader_ReadValue__rf32, float)
-_Bool IMsgPackReader_ReadValue__rCBinTimestamp(struct IMsgPackReader* r, struct CBinTimestamp* v) { if (rd_raise()) return 0; __CPROVER_assert(g_cur % 2 == 0, "C03: keys are read at key positions"); rd_consume(); g_keys_read++; return 1; }
-static _Bool value_consume(void) { if (rd_raise()) return 0; __CPROVER_assert(g_cur % 2 == 1, "C03: a value is read at a value position"); g_value_read = 1; g_value_pair = g_cur / 2; rd_consume(); return nondet_bool(); }
+_Bool IMsgPackReader_ReadValue__rCBinTimestamp(struct IMsgPackReader* r, struct CBinTimestamp* v) { if (rd_raise()) return 0; __CPROVER_assert(g_cur % 2 == 0, "C03: keys are read at key positions"); rd_consume(); if (rd_raise_after()) return 0; g_keys_read++; return 1; }
+static _Bool value_consume(void) { if (rd_raise()) return 0; __CPROVER_assert(g_cur % 2 == 1, "C03: a value is read at a value position"); g_value_read = 1; g_value_pair = g_cur / 2; rd_consume(); if (rd_raise_after()) return 0; return nondet_bool(); }
 _Bool IMsgPackReader_ReadValue__ri32(struct IMsgPackReader* r, int* v) { _Bool ok = value_consume(); if (ok) *v = nondet_int(); return ok; }
-_Bool IMsgPackReader_ReadArraySize__ru64(struct IMsgPackReader* r, unsigned long* v) { _Bool ok = value_consume(); if (ok) *v = nondet_ulong(); return ok; }
-_Bool IMsgPackReader_ReadMapSize__ru64(struct IMsgPackReader* r, unsigned long* v) { _Bool ok = value_consume(); if (ok) *v = nondet_ulong(); return ok; }
+/* container heads cannot overflow: they fail only before anything is consumed (mismatched type) or on damaged (truncated) input */
+static _Bool size_consume(void) { if (rd_raise()) { if (nondet_bool()) g_skip_failed = 1; return 0; } __CPROVER_assert(g_cur % 2 == 1, "C03: a value is read at a value position"); g_value_read = 1; g_value_pair = g_cur / 2; rd_consume(); return nondet_bool(); }
+_Bool IMsgPackReader_ReadArraySize__ru64(struct IMsgPackReader* r, unsigned long* v) { _Bool ok = size_consume(); if (ok) *v = nondet_ulong(); return ok; }
+_Bool IMsgPackReader_ReadMapSize__ru64(struct IMsgPackReader* r, unsigned long* v) { _Bool ok = size_consume(); if (ok) *v = nondet_ulong(); return ok; }
 #define KEYT struct CVariableKey_std_tuple_vstr_c8_vsv_c8_i64_u64_f32_f64_CBinTimestamp
 #define KEYF(x) CVariableKey_std_tuple_vstr_c8_vsv_c8_i64_u64_f32_f64_CBinTimestamp_##x
 _Bool KEYF(conv_b___k)(const KEYT* k) { return g_key_set; }
@@ -59,17 +64,17 @@ KEY_REF(GetValueRef_vsv_c8, vsv_c8, sv) KEY_REF(GetValueRef_u64, unsigned long, 
 /* ---- loop contracts ---- */
 #define VISITED(c, m0, w) (((c) <= g_N - (m0) && (m0) <= (w) && (w) < (m0) + (c)) || ((c) > g_N - (m0) && ((w) >= (m0) || (w) < (c) - (g_N - (m0)))))
 #define VERIF_LOOP_CMsgPackReadObjectScope_IMsgPackReader_FindValueByKey_rkvstr_c8__rkvstr_c8_1 \
-  __CPROVER_assigns(c, self->mIndex, g_cur, g_key_set, g_key_pair, g_matched, g_match_pair, g_keys_read, g_seeks, __verif_exc, __verif_exc_code, __tmp6) \
+  __CPROVER_assigns(c, self->mIndex, g_cur, g_key_set, g_key_pair, g_matched, g_match_pair, g_keys_read, g_seeks, g_skip_failed, __verif_exc, __verif_exc_code, __tmp6) \
   __CPROVER_loop_invariant(c <= self->mSize && self->mSize == g_N && self->mStartPos == g_P0 && self->mIndex <= g_N && g_cur == 2 * self->mIndex && __verif_exc == 0 && \
       __CPROVER_loop_entry(self->mIndex) <= g_N && (c <= g_N - __CPROVER_loop_entry(self->mIndex) ? self->mIndex == __CPROVER_loop_entry(self->mIndex) + c : self->mIndex == c - (g_N - __CPROVER_loop_entry(self->mIndex))) && \
       (!(g_w < g_N && VISITED(c, __CPROVER_loop_entry(self->mIndex), g_w)) || !g_eq_w)) \
   __CPROVER_decreases(self->mSize - c)
 #define VERIF_LOOP_CMsgPackReadObjectScope_IMsgPackReader_dtor_1 \
-  __CPROVER_assigns(c, self->mIndex, g_cur, __verif_exc, __verif_exc_code) \
-  __CPROVER_loop_invariant(c == self->mIndex && self->mSize == g_N && self->mIndex <= g_N && g_cur == 2 * self->mIndex && !g_key_set) \
+  __CPROVER_assigns(c, self->mIndex, g_cur, g_skip_failed, __verif_exc, __verif_exc_code) \
+  __CPROVER_loop_invariant(c == self->mIndex && self->mSize == g_N && self->mIndex <= g_N && g_cur <= 2 * self->mIndex && (g_after_exc || g_cur == 2 * self->mIndex) && !g_key_set) \
   __CPROVER_decreases(self->mSize - c)
 #define VERIF_LOOP_CMsgPackReadObjectScope_IMsgPackReader_VisitKeys_lambda_L12C48_in_obj_visit_keys__xlambda_L12C48_in_obj_visit_keys_1 \
-  __CPROVER_assigns(self->mIndex, g_cur, g_key_set, g_key_pair, g_keys_read, __verif_exc, __verif_exc_code) \
+  __CPROVER_assigns(self->mIndex, g_cur, g_key_set, g_key_pair, g_keys_read, g_skip_failed, __verif_exc, __verif_exc_code) \
   __CPROVER_loop_invariant(self->mSize == g_N && self->mIndex <= g_N && g_cur == 2 * self->mIndex && !g_key_set && g_keys_read == self->mIndex && __verif_exc == 0) \
   __CPROVER_decreases(self->mSize - self->mIndex)
 #include "gen.c"
@@ -77,13 +82,16 @@ KEY_REF(GetValueRef_vsv_c8, vsv_c8, sv) KEY_REF(GetValueRef_u64, unsigned long, 
 static struct IMsgPackReader g_reader; static struct SerializationContext g_ctx; static vstr_c8 g_key;
 #define OBJ struct CMsgPackReadObjectScope_IMsgPackReader
 static _Bool J(const OBJ* s) { return s->mSize == g_N && s->mStartPos == g_P0 && s->mIndex <= g_N && (g_key_set ? (s->mIndex < g_N && g_cur == 2 * s->mIndex + 1 && g_key_pair == s->mIndex) : g_cur == 2 * s->mIndex); }
+/* exception-state invariant JX (C20): whatever the destructor will still skip - the pending value (if a key is held) and two values per
+   remaining pair - lies inside the map, i.e. the scope stays safely destructible after a failed request */
+static _Bool JX(const OBJ* s) { return s->mSize == g_N && s->mIndex <= g_N && (!g_key_set || s->mIndex < g_N) && g_cur <= 2 * s->mIndex + (g_key_set ? 1 : 0); }
 static void obj_init(OBJ* s, _Bool child_open) {
   g_N = nondet_ulong(); __CPROVER_assume(g_N <= ((unsigned long)1 << 40)); g_P0 = nondet_ulong();
   s->mMsgPackReader = &g_reader; s->__base_TArchiveScope.mSerializationContext = &g_ctx; s->__base_CMsgPackScopeBase.mParentScope = 0; s->mSize = g_N; s->mStartPos = g_P0; s->mIndex = nondet_ulong();
   g_cur = nondet_ulong(); g_key_set = nondet_bool(); g_key_pair = nondet_ulong(); g_w = nondet_ulong(); g_eq_w = nondet_bool(); g_matched = 0; g_value_read = 0; g_keys_read = 0; g_seeks = 0;
   if (child_open) __CPROVER_assume(s->mIndex < g_N && g_key_set && g_key_pair == s->mIndex && g_cur == 2 * s->mIndex + 2);   /* a child scope of pair mIndex is open and has consumed that value */
   else __CPROVER_assume(J(s));                                                                                              /* class invariant */
-  __verif_exc = 0; __verif_exc_code = 0;
+  __verif_exc = 0; __verif_exc_code = 0; g_after_exc = 0; g_skip_failed = 0;
 }
 void h_value(void) { OBJ s; obj_init(&s, 0); int v0 = nondet_int(), v = v0;
   _Bool ret = verif_inst_obj_value_i32__rCMsgPackReadObjectScope_IMsgPackReader_rkvstr_c8_ri32(&s, &g_key, &v);
@@ -91,6 +99,7 @@ void h_value(void) { OBJ s; obj_init(&s, 0); int v0 = nondet_int(), v = v0;
   VERIF_ASSERT("C03", __verif_exc != 0 || !g_value_read || (g_matched && g_value_pair == g_match_pair && !g_key_set), "a value is only ever read from the pair whose key compared equal to the requested key");
   VERIF_ASSERT("C03", __verif_exc != 0 || g_value_read || (!ret && v == v0 && !g_key_set && !(g_w < g_N && g_eq_w)), "a request that reads nothing reports 'not loaded', leaves the target unchanged, and then NO pair of the map carries the requested key (arbitrary witness pair)");
   VERIF_ASSERT("C03,C05", __verif_exc != 0 || ret || v == v0, "a field reported as not loaded keeps its previous value");
+  VERIF_ASSERT("C20,C03", __verif_exc == 0 || g_skip_failed || JX(&s), "when a request fails with an exception (other than a failed skip of damaged input) the scope stays safely destructible: everything its destructor will still skip lies inside its map");
   VERIF_CANARY(); }
 #define H_OPEN(NAME) \
 void h_open_##NAME(void) { OBJ s; obj_init(&s, 0); unsigned long i0 = s.mIndex; \
@@ -98,6 +107,7 @@ void h_open_##NAME(void) { OBJ s; obj_init(&s, 0); unsigned long i0 = s.mIndex; 
   VERIF_ASSERT("C03", __verif_exc != 0 || !ret || (g_matched && g_value_read && g_value_pair == g_match_pair && g_key_set && g_key_pair == s.mIndex && g_cur == 2 * s.mIndex + 2), "an opened child scope belongs to the pair whose key compared equal; the parent waits at that pair"); \
   VERIF_ASSERT("C03,C05", __verif_exc != 0 || ret || J(&s), "when no child scope is opened (absent key or skipped value) the scope is consistent again and exactly the offending value was consumed"); \
   VERIF_ASSERT("C03", __verif_exc != 0 || ret || g_value_read || !(g_w < g_N && g_eq_w), "an absent key means no pair of the map carries it"); \
+  VERIF_ASSERT("C20,C03", __verif_exc == 0 || g_skip_failed || JX(&s), "when a request fails with an exception (other than a failed skip of damaged input) the scope stays safely destructible: everything its destructor will still skip lies inside its map"); \
   VERIF_CANARY(); }
 H_OPEN(array) H_OPEN(object)
 void h_finish_child(void) { OBJ s; obj_init(&s, 1);
@@ -112,11 +122,16 @@ void h_destroy(void) { OBJ s; obj_init(&s, 0);
   verif_inst_obj_destroy__rCMsgPackReadObjectScope_IMsgPackReader(&s);
   VERIF_ASSERT("C03", __verif_exc != 0 || (g_cur == 2 * g_N && s.mIndex == g_N), "leaving the scope skips exactly what was left unread: the cursor ends directly behind the map, so the data that follows is read correctly");
   VERIF_CANARY(); }
+void h_destroy_after_exc(void) { OBJ s; obj_init(&s, 0); s.mIndex = nondet_ulong(); g_cur = nondet_ulong(); g_key_set = nondet_bool(); __CPROVER_assume(JX(&s)); g_after_exc = 1;
+  verif_inst_obj_destroy__rCMsgPackReadObjectScope_IMsgPackReader(&s);   /* rd_consume asserts that nothing beyond the map is skipped */
+  VERIF_ASSERT("C20,C03", __verif_exc != 0 || (g_cur <= 2 * g_N && s.mIndex == g_N), "from any state a failed request can leave behind, the destructor stays inside the map");
+  VERIF_CANARY(); }
 /*@jobs
-job entry=h_value props=C03,C05 mode=direct loops=1 unwind=3
-job entry=h_open_array props=C03,C05 mode=direct loops=1 unwind=3
-job entry=h_open_object props=C03,C05 mode=direct loops=1 unwind=3
+job entry=h_value props=C03,C05,C20 mode=direct loops=1 unwind=3
+job entry=h_open_array props=C03,C05,C20 mode=direct loops=1 unwind=3
+job entry=h_open_object props=C03,C05,C20 mode=direct loops=1 unwind=3
 job entry=h_finish_child props=C03 mode=direct unwind=3
 job entry=h_visit_keys props=C03 mode=direct loops=1 unwind=3
 job entry=h_destroy props=C03,C20,C02 mode=direct loops=1 unwind=3 kfmap=noexcept_escape:KF-C20-objscope-dtor-throws
+job entry=h_destroy_after_exc props=C03,C20,C02 mode=direct loops=1 unwind=3 kfmap=noexcept_escape:KF-C20-objscope-dtor-throws
 @*/
